@@ -26,6 +26,9 @@ def run_extra(ck: Check, repo: Repo) -> None:
     _callable_state(ck, repo)
     _persistent_buffers(ck, repo)
     _hooks_on_online_networks(ck, repo)
+    ck.rule("C01.14", "the defaults EvolvableNetwork.__init__ derives for its encoder resolve identically on the constructor description that clone() uses "
+                      "(a clone is built like its parent) — obligations of C04.8")
+    description_idempotent(ck, repo, "C01.14")
 
 
 # ------------------------------------------------------------------------------------------------ C01.10
@@ -169,3 +172,50 @@ def _hooks_on_online_networks(ck: Check, repo: Repo) -> None:
                              "from the parent's (DDPG(Box(4), Box(2)) with defaults, 4 learn steps, clone: critic outputs differ by 1.4e-3)",
                       construct=f"{cname}.{h.name} re-derives online network {r}")
     ck.floor("C01.13", n, 4, "networks receiving weights in registered hooks")
+
+
+# ------------------------------------------------------------------------------------------------ C04.8 / C01.14
+def description_idempotent(ck: Check, repo: Repo, rule: str) -> None:
+    """EvolvableNetwork.__init__ derives a default for one config key from another key that may be absent; the encoder's own constructor fills the
+    absent key with a non-None default, and the description used by clone() (encoder.net_config) contains the filled key.  The derivation must give
+    the same result on the description as on the original config, otherwise every clone is built differently from its parent."""
+    init = repo.fn("agilerl.networks.base", "EvolvableNetwork.__init__")
+    # cfg[K2] = <name bound to cfg.get(K1)>  (no default in the .get)
+    derived = []
+    gets: Dict[str, ast.Call] = {}
+    for a in walk_no_nested(init.node):
+        if isinstance(a, ast.Assign) and isinstance(a.targets[0], ast.Name) and isinstance(a.value, ast.Call) and last_attr(a.value) == "get" and len(a.value.args) == 1 \
+                and isinstance(const_value(a.value.args[0]), str):
+            gets[a.targets[0].id] = a.value
+    for a in walk_no_nested(init.node):
+        if isinstance(a, ast.Assign) and isinstance(a.targets[0], ast.Subscript) and isinstance(const_value(a.targets[0].slice), str) and isinstance(a.value, ast.Name) \
+                and a.value.id in gets and dotted(a.targets[0].value) == dotted(gets[a.value.id].func.value):
+            derived.append((const_value(a.targets[0].slice), const_value(gets[a.value.id].args[0]), a))
+    n = 0
+    for k2, k1, site in derived:
+        # encoder classes the default path can build, and the default they give to k1
+        be = repo.fn("agilerl.networks.base", "EvolvableNetwork._build_encoder")
+        seen_cls = set()
+        for c in ast.walk(be.node):
+            # every class the function mentions (called directly, or bound to a local that is called)
+            if not (isinstance(c, ast.Name) and c.id[:1].isupper() and isinstance(c.ctx, ast.Load)):
+                continue
+            tgt = repo.resolve(be.mod, c.id)
+            if not isinstance(tgt, Cls) or "__init__" not in tgt.methods or tgt.name in seen_cls:
+                continue
+            seen_cls.add(tgt.name)
+            ctor = tgt.methods["__init__"].node
+            args = ctor.args.posonlyargs + ctor.args.args
+            defaults = dict(zip([x.arg for x in args[len(args) - len(ctor.args.defaults):]], ctor.args.defaults))
+            defaults.update({x.arg: d for x, d in zip(ctor.args.kwonlyargs, ctor.args.kw_defaults) if d is not None})
+            if k1 not in defaults:
+                continue
+            n += 1
+            dflt = const_value(defaults[k1])
+            ck.ob(rule, init, site, dflt is None,
+                  f"EvolvableNetwork.__init__: `{k2}` derived from an absent `{k1}` resolves the same way on the description that clone() uses ({tgt.name})",
+                  detail=f"`{k2}` is set to config.get('{k1}') — None when the key is absent — while {tgt.name} fills the absent `{k1}` with {dflt!r}; the description of the built "
+                         f"encoder (net_config) contains {k1}={dflt!r} and {k2}=None, so a clone resolves {k2} to {dflt!r}: the parent's encoder ends in Identity, every clone's in "
+                         f"{dflt} (DQN(Box(4), Discrete(2), net_config={{'encoder_config': {{'hidden_size': [8]}}}}).clone(): actor outputs differ by 0.098)",
+                  construct=f"EvolvableNetwork.__init__: {k2} <- absent {k1} ({tgt.name})")
+    ck.floor(rule, n, 1, "derived config defaults checked against the encoder constructors")
